@@ -23,13 +23,30 @@ VARIANTS = ["fn", "m1", "m2", "static"]
 SPELL = ["pos", "kw", "pos+default", "kw+default"]
 
 
-def make_targets(runs, dur, fails, item):
+# argument values of the two keys: distinct values whose hashes collide in CPython (hash(-1) == hash(-2) == -2)
+KEYVAL = [-1, -2]
+
+
+def make_targets(runs, dur, fails, item, reenter=(False, False)):
     from asynq import asynq as A
     from asynq.tools import deduplicate
+    inside = {}
+    holder = {}
 
-    def body(tag, k):
+    def body(tag, kv):
+        k = KEYVAL.index(kv)
         runs[(tag, k)] += 1
         n = runs[(tag, k)]
+        if inside.get((tag, k)):
+            # the re-entrant run (a call from inside the running body gets a private task): returns at once
+            return [tag, k, n]
+        if reenter[k]:
+            # the body calls itself with the same key, as the documentation's escape hatch allows
+            inside[(tag, k)] = True
+            try:
+                holder[tag].asynq(kv).value()
+            finally:
+                inside[(tag, k)] = False
         for _ in range(dur[k]):
             yield item()
         if fails[k]:
@@ -57,10 +74,12 @@ def make_targets(runs, dur, fails, item):
             return (yield from body("static", k))
 
     i1, i2 = C("m1"), C("m2")
-    return {"fn": fn, "m1": i1.m, "m2": i2.m, "static": C.s}, (i1, i2)
+    holder.update({"fn": fn, "m1": i1.m, "m2": i2.m, "static": C.s})
+    return dict(holder), (i1, i2)
 
 
 def call_async(target, k, spell):
+    k = KEYVAL[k]
     if spell == "pos":
         return target.asynq(k)
     if spell == "kw":
@@ -71,6 +90,7 @@ def call_async(target, k, spell):
 
 
 def call_dirty(target, k, spell):
+    k = KEYVAL[k]
     if spell == "pos":
         return target.dirty(k)
     if spell == "kw":
@@ -87,7 +107,8 @@ def strat_timed(tier):
                    st.integers(0, 1), st.sampled_from(SPELL)).map(list)
     return st.fixed_dictionaries({"events": st.lists(ev, min_size=2, max_size=8 if tier == "quick" else 14),
                                   "dur": st.lists(st.sampled_from([1, 2, 2, 3, 4]), min_size=2, max_size=2),
-                                  "fails": st.lists(st.sampled_from([False, False, True]), min_size=2, max_size=2)})
+                                  "fails": st.lists(st.sampled_from([False, False, True]), min_size=2, max_size=2),
+                                  "reenter": st.lists(st.sampled_from([False, False, True]), min_size=2, max_size=2)})
 
 
 def check_timed(case, ctx):
@@ -95,13 +116,14 @@ def check_timed(case, ctx):
     engine.reset_process_state()
     env = engine.Env({"root": {"id": 0, "body": []}, "prio": {}})
     evs, dur, fails = case["events"], case["dur"], case["fails"]
+    reenter = case.get("reenter", [False, False])
     runs = collections.Counter()
     uid = [0]
 
     def item():
         uid[0] += 1
         return engine.HItem(env, "a", 0, "ok", uid[0])
-    targets, keepalive = make_targets(runs, dur, fails, item)
+    targets, keepalive = make_targets(runs, dur, fails, item, reenter)
     obs = {}
 
     @A()
@@ -139,7 +161,7 @@ def check_timed(case, ctx):
     members = collections.defaultdict(list)
 
     def bad(clause, msg):
-        viol.append(("C12." + clause, "events %r, body rounds %r, fails %r: %s" % (evs, dur, fails, msg)))
+        viol.append(("C12." + clause, "events %r, body rounds %r, fails %r, body re-enters itself %r: %s" % (evs, dur, fails, reenter, msg)))
 
     for i in order:
         t, kind, var, k, spell = evs[i]
@@ -180,6 +202,8 @@ def check_timed(case, ctx):
             mruns[key] += 1
             objs[mid] = task
             info[mid] = (key, mruns[key])
+            if reenter[k]:
+                mruns[key] += 1        # the body's own re-entrant call runs the body once more (private task)
             inflight[key] = {"mid": mid, "created": t, "done": t + dur[k]}
             members[mid].append(i)
             if key in completed_keys:
@@ -201,6 +225,7 @@ def check_timed(case, ctx):
     for c in ("second-call-strictly-inside", "call-after-dirty", "call-after-completion"):
         ctx.label(c, c in classes)
     ctx.label("tie", ties > 0)
+    ctx.label("body-reenters-itself", any(reenter[evs[i][3]] for i in order if evs[i][1] == "call"))
     ctx.label("failing-body-shared", any(fails[info[m][0][1]] and len(ix) > 1 for m, ix in members.items()))
     ctx.nontrivial(case, nontriv)
     return viol
@@ -327,6 +352,8 @@ def reduce_timed(case):
             yield dict(case, events=e2)
     if any(case["fails"]):
         yield dict(case, fails=[False, False])
+    if any(case.get("reenter", [])):
+        yield dict(case, reenter=[False, False])
 
 
 def reduce_top(case):
